@@ -668,6 +668,19 @@ fn judge_store_inner<T: HLabel>(ops: &[Op<T>], nwl: u8, counts: &mut Vec<String>
                 ));
             }
         }
+        // documented: "the maximal argument id given so far" (removed arguments included), the same
+        // through the framework and through its argument set
+        {
+            let given = model.ids_given.iter().max().copied();
+            let a = af.max_argument_id();
+            let b = af.argument_set().max_id();
+            if a != given || b != given {
+                return Some((
+                    "C12/max-id-is-not-the-maximal-id-given-so-far".to_string(),
+                    json!({"step": step, "op": opj, "framework_max_argument_id": a, "argument_set_max_id": b, "maximal_id_given": given}),
+                ));
+            }
+        }
         if let Some(m) = live_ids.iter().max() {
             match af.max_argument_id() {
                 Some(x) if x >= *m => {}
@@ -1027,7 +1040,13 @@ fn is_ident(s: &str) -> bool {
         Some(c) if c == '_' || c.is_ascii_alphabetic() => {}
         _ => return false,
     }
-    cs.all(|c| c == '_' || c.is_ascii_alphanumeric())
+    // digits: any Unicode decimal digit (the documented pattern uses \d), letters: ASCII
+    cs.all(|c| c == '_' || c.is_ascii_alphabetic() || c.is_ascii_digit() || is_unicode_decimal_digit(c))
+}
+
+/// Decimal digits (general category Nd) of the scripts used by the generators.
+fn is_unicode_decimal_digit(c: char) -> bool {
+    matches!(c as u32, 0x0660..=0x0669 | 0x06F0..=0x06F9 | 0x0966..=0x096F | 0x0E50..=0x0E59 | 0xFF10..=0xFF19)
 }
 
 pub fn ref_parse_apx(bytes: &[u8]) -> RefParse {
@@ -1207,6 +1226,10 @@ fn gen_ident(rng: &mut Rng) -> String {
     s.push(first[rng.below(first.len())] as char);
     for _ in 0..len {
         s.push(rest[rng.below(rest.len())] as char);
+    }
+    if rng.pct(2) {
+        // the documented name pattern allows any decimal digit, not only ASCII ones
+        s.push(*rng.pick(&['\u{0663}', '\u{0969}', '\u{0e53}', '\u{ff13}', '\u{06f7}']));
     }
     s
 }
@@ -1772,6 +1795,34 @@ pub fn run_c13(ctx: &mut Ctx) {
 }
 
 fn c13_one(ctx: &mut Ctx, rng: &mut Rng, i: u64, cli_every: u64) {
+    if i % 900 == 11 {
+        // a physical line longer than 64 KiB (comment, or blanks around a declaration) in a well-formed text
+        let mut r2 = rng.clone();
+        let iccma = r2.pct(50);
+        let len = *r2.pick(&[65_530usize, 65_535, 65_536, 65_537, 70_000, 140_000]);
+        let text: Vec<u8> = if iccma {
+            let mut t = String::from("p af 3\n1 2\n");
+            if r2.pct(50) {
+                t.push('#');
+                t.push_str(&"x".repeat(len));
+                if r2.pct(50) {
+                    t.push_str(" 2 1");
+                }
+                t.push('\n');
+            } else {
+                t.push_str(&format!("2{}3\n", " ".repeat(len)));
+            }
+            t.push_str("3 1\n");
+            t.into_bytes()
+        } else {
+            let mut t = String::from("arg(a).\narg(b).\n");
+            t.push_str(&format!("arg({}c{}).\n", " ".repeat(len / 2), " ".repeat(len / 2)));
+            t.push_str("att(a,b).\natt(c,a).\n");
+            t.into_bytes()
+        };
+        ctx.count("inputs/line-longer-than-64KiB");
+        judge_text(ctx, iccma, "well-formed", &text, None);
+    }
     if i % 400 == 7 {
         let mut r2 = rng.clone();
         let t = gen_iccma_corner_text(&mut r2);
@@ -1864,6 +1915,45 @@ impl Write for FailsAfter {
     }
     fn flush(&mut self) -> std::io::Result<()> {
         Ok(())
+    }
+}
+
+/// A pipe-like sink: accepts `room` bytes, then reports `WouldBlock` once, then accepts everything.
+struct BlocksOnce {
+    room: usize,
+    blocked: bool,
+    got: Vec<u8>,
+}
+
+impl Write for BlocksOnce {
+    fn write(&mut self, buf: &[u8]) -> std::io::Result<usize> {
+        if !self.blocked {
+            if self.room == 0 {
+                self.blocked = true;
+                return Err(std::io::Error::new(std::io::ErrorKind::WouldBlock, "pipe full (injected)"));
+            }
+            let k = buf.len().min(self.room);
+            self.room -= k;
+            self.got.extend_from_slice(&buf[..k]);
+            return Ok(k);
+        }
+        self.got.extend_from_slice(buf);
+        Ok(buf.len())
+    }
+    fn flush(&mut self) -> std::io::Result<()> {
+        Ok(())
+    }
+}
+
+/// An answer written into a sink that blocks once: the call may fail (then what was sent is a prefix
+/// of the answer) or succeed (then exactly the answer was sent).  Returns a description of a breach.
+fn blocks_once_breach(expected: &[u8], room: usize, f: impl FnOnce(&mut dyn Write) -> anyhow::Result<()>) -> Option<String> {
+    let mut sink = BlocksOnce { room, blocked: false, got: Vec::new() };
+    let r = f(&mut sink);
+    match r {
+        Ok(()) if sink.got != expected => Some(format!("reported success but sent {:?}", String::from_utf8_lossy(&sink.got[..sink.got.len().min(80)]))),
+        Err(_) if !expected.starts_with(&sink.got) => Some(format!("failed after sending {:?}, which is not a prefix of the answer", String::from_utf8_lossy(&sink.got[..sink.got.len().min(80)]))),
+        _ => None,
     }
 }
 
@@ -2009,7 +2099,7 @@ fn eval_c14_framework(ctx: &mut Ctx, rng: &mut Rng) {
         }
         af
     });
-    let af = match built {
+    let mut af = match built {
         Ok(af) => af,
         Err(_) => {
             // the store itself panicked: C12 reports that; nothing to write here
@@ -2118,6 +2208,44 @@ fn eval_c14_framework(ctx: &mut Ctx, rng: &mut Rng) {
         }
     }
     ctx.count("frameworks_round_tripped");
+    // the same framework object, changed without changing its counts (one attack reversed), written
+    // again by the same writer object: whatever a writer remembers of an earlier dump is stale now
+    {
+        let cand: Vec<(usize, usize)> = atts.iter().copied().filter(|(a, b)| a != b && !atts.contains(&(*b, *a))).collect();
+        if !cand.is_empty() {
+            let (a, b) = cand[rng.below(cand.len())];
+            let (la, lb) = (names[a].clone(), names[b].clone());
+            let changed = catch(|| af.remove_attack(&la, &lb).is_ok() && af.new_attack(&lb, &la).is_ok());
+            if let Ok(true) = changed {
+                let again = catch(|| write_with(false, |w| with_apx_writer(|wr| wr.write_framework(&af, w))));
+                let (n2, a2) = describe(&af);
+                if let Ok(Ok(b2)) = again {
+                    ctx.eval();
+                    ctx.count("frameworks_written_twice_by_one_writer_object");
+                    match ref_parse_apx(&b2) {
+                        RefParse::Ok(rn, ra) => {
+                            let mut ra = ra;
+                            ra.sort();
+                            ra.dedup();
+                            if rn != n2 || ra != a2 {
+                                ctx.violation(
+                                    "C14/second-dump-of-a-changed-framework-differs",
+                                    json!({"reversed_attack": [la, lb], "expected": {"arguments": n2, "attacks": a2}, "parsed": {"arguments": rn, "attacks": ra},
+                                           "written": String::from_utf8_lossy(&b2).chars().take(600).collect::<String>()}),
+                                    &case,
+                                );
+                                return;
+                            }
+                        }
+                        other => {
+                            ctx.violation("C14/written-framework-not-well-formed", json!({"second_dump": true, "reference": format!("{:?}", other)}), &case);
+                            return;
+                        }
+                    }
+                }
+            }
+        }
+    }
     let removed = ops.iter().any(|o| matches!(o, Op::DelArg(_) | Op::DelAtt(..)));
     if removed && !atts.is_empty() {
         let mut h = Hasher64::new();
@@ -2185,6 +2313,12 @@ fn eval_c14_answers(ctx: &mut Ctx, rng: &mut Rng) {
             Ok(Ok(b)) => match parse_w_line(&b) {
                 Some(got) if got == expect => {
                     ctx.count("extensions_checked/iccma");
+                    if expect.len() <= 12 {
+                        let room = rng.below(b.len().max(1));
+                        if let Ok(Some(br)) = catch(|| blocks_once_breach(&b, room, |w| with_iccma_writer(|wr| wr.write_single_extension(w, &chosen)))) {
+                            ctx.violation("C14/answer-through-a-sink-that-blocks-once/iccma-extension", json!({"breach": br, "room": room}), &case);
+                        }
+                    }
                     if got.len() >= 2 {
                         let mut h = Hasher64::new();
                         h.bytes(&b);
@@ -2254,6 +2388,12 @@ fn eval_c14_answers(ctx: &mut Ctx, rng: &mut Rng) {
             Ok(Ok(b)) => match parse_bracket_line(&b) {
                 Some(got) if got == expect => {
                     ctx.count("extensions_checked/apx");
+                    if expect.len() <= 12 {
+                        let room = rng.below(b.len().max(1));
+                        if let Ok(Some(br)) = catch(|| blocks_once_breach(&b, room, |w| with_apx_writer(|wr| wr.write_single_extension(w, &chosen)))) {
+                            ctx.violation("C14/answer-through-a-sink-that-blocks-once/apx-extension", json!({"breach": br, "room": room}), &case);
+                        }
+                    }
                     if got.len() >= 2 {
                         let mut h = Hasher64::new();
                         h.bytes(&b);
@@ -2277,6 +2417,13 @@ fn eval_c14_answers(ctx: &mut Ctx, rng: &mut Rng) {
         for st in [true, false] {
             ctx.eval();
             let exp: &[u8] = if st { b"YES\n" } else { b"NO\n" };
+            if let Ok(Some(b)) = catch(|| blocks_once_breach(exp, rng.below(4), |w| with_apx_writer(|wr| wr.write_acceptance_status(w, st)))) {
+                ctx.violation("C14/answer-through-a-sink-that-blocks-once/apx-status", json!({"status": st, "breach": b}), &json!({"kind": "status"}));
+            }
+            if let Ok(Some(b)) = catch(|| blocks_once_breach(exp, rng.below(4), |w| with_iccma_writer(|wr| wr.write_acceptance_status(w, st)))) {
+                ctx.violation("C14/answer-through-a-sink-that-blocks-once/iccma-status", json!({"status": st, "breach": b}), &json!({"kind": "status"}));
+            }
+            ctx.count("answers_through_a_sink_that_blocks_once");
             match catch(|| write_with(short, |w| with_apx_writer(|wr| wr.write_acceptance_status(w, st)))) {
                 Ok(Ok(b)) if b == exp => ctx.count("status_lines_checked"),
                 other => ctx.violation("C14/apx-status-line", json!({"status": st, "got": format!("{:?}", other.map(|r| r.map(|b| String::from_utf8_lossy(&b).to_string())).map_err(|p| p.msg))}), &json!({"kind": "status"})),
